@@ -478,6 +478,13 @@ sqrt_mpq(mpq_class& to, const mpq_class& from, const Rounding_Dir dir) {
     to = 0;
     return V_EQ;
   }
+  if (mpz_perfect_square_p(from.get_num().get_mpz_t()) != 0
+      && mpz_perfect_square_p(from.get_den().get_mpz_t()) != 0) {
+    // The square root is rational: compute it exactly.
+    mpz_sqrt(to.get_num().get_mpz_t(), from.get_num().get_mpz_t());
+    mpz_sqrt(to.get_den().get_mpz_t(), from.get_den().get_mpz_t());
+    return V_EQ;
+  }
   bool gt1 = from.get_num() > from.get_den();
   const mpz_class& from_a = gt1 ? from.get_num() : from.get_den();
   const mpz_class& from_b = gt1 ? from.get_den() : from.get_num();
